@@ -8,8 +8,8 @@ CONSTANTS
   CommitIds <- C_CommitIds
   Users <- C_Users
   Cfgs <- C_CfgsCrash
-  MaxCalls = 3
-  MaxFlush = 1
+  MaxCalls = 2
+  MaxFlush = 2
   MaxReopen = 0
   MaxCrash = 1
   MaxFaults = 0
